@@ -33,10 +33,14 @@ type Layout struct {
 	Root  string  `json:"root"`            // "rm", "cmraw", "cmconv"
 	Steps []LStep `json:"steps,omitempty"` // applied to the root in order
 	Final string  `json:"final,omitempty"` // "", "mat" (Materialize), "clone" (Clone)
+	Opt   int     `json:"opt,omitempty"`   // order in which the construction options are given (0, 1, 2)
 }
 
 func (l Layout) String() string {
 	s := l.Root
+	if l.Opt != 0 {
+		s += fmt.Sprintf("(opts%d)", l.Opt)
+	}
 	for _, st := range l.Steps {
 		switch st.Op {
 		case "T":
@@ -222,7 +226,7 @@ func (st LStep) applyLib(t *tensor.Dense) (*tensor.Dense, error) {
 // are never built through views: the library turns such views into scalars).
 func (l Layout) normalise(shape []int) Layout {
 	if prod(shape) == 1 || len(shape) == 0 {
-		return Layout{Root: l.Root}
+		return Layout{Root: l.Root, Opt: l.Opt}
 	}
 	return l
 }
@@ -295,6 +299,8 @@ func Build(arr Arr, l Layout, mask []bool) (b *Built, err error) {
 			}
 			if mask != nil {
 				root = tensor.New(tensor.WithShape(rootShape...), tensor.WithBacking(raw, rootMask))
+			} else if l.Opt%2 == 1 {
+				root = tensor.New(tensor.WithBacking(raw), tensor.WithShape(rootShape...))
 			} else {
 				root = tensor.New(tensor.WithShape(rootShape...), tensor.WithBacking(raw))
 			}
@@ -316,7 +322,15 @@ func Build(arr Arr, l Layout, mask []bool) (b *Built, err error) {
 			if mask != nil {
 				root = tensor.New(tensor.WithShape(rootShape...), tensor.WithBacking(raw, rawMask), tensor.AsFortran(nil))
 			} else {
-				root = tensor.New(tensor.WithShape(rootShape...), tensor.WithBacking(raw), tensor.AsFortran(nil))
+				// the options may come in any order
+				switch l.Opt % 3 {
+				case 1:
+					root = tensor.New(tensor.AsFortran(nil), tensor.WithShape(rootShape...), tensor.WithBacking(raw))
+				case 2:
+					root = tensor.New(tensor.WithBacking(raw), tensor.AsFortran(nil), tensor.WithShape(rootShape...))
+				default:
+					root = tensor.New(tensor.WithShape(rootShape...), tensor.WithBacking(raw), tensor.AsFortran(nil))
+				}
 			}
 		case "cmconv":
 			raw := mkBacking(d, b.RootE)
@@ -579,7 +593,7 @@ func genLayoutKind(t *rapid.T, kind string, rank int, label string) Layout {
 	if len(kind) > 0 && kind[0] == '+' {
 		kind = kind[1:]
 	}
-	l := Layout{Root: root}
+	l := Layout{Root: root, Opt: rapid.IntRange(0, 2).Draw(t, label+"opt")}
 	if rank == 0 {
 		return l
 	}
